@@ -36,11 +36,11 @@ theorem st_lastFinish (buf : List (Option α)) (i n : Nat) (hb : buf.length = n)
         simp only [stLastIdx]; rw [Int.ofNat_tmod]
       have hsplit : stLastSplit (n : Int) (stLastIdx (i : Int) (n : Int)) = ((n - i % n : Nat) : Int) := by
         rw [hidx']; simp only [stLastSplit]; omega
-      simp only [h2, if_true, h3, if_false, hn, hidx, hsplit, Int.toNat_natCast]
+      simp only [h2, if_true, h3, if_false, hn, ValueFacts.stLastFrom_eq, ValueFacts.stLastUpto_eq, hidx, hsplit, Int.toNat_natCast]
       have hc : ¬ ((((n - i % n : Nat) : Int) < 0) ∨ (((n - i % n : Nat) : Int) > (n : Int))) := by omega
       have hc' : (decide (((n - i % n : Nat) : Int) < 0) || decide (((n - i % n : Nat) : Int) > (n : Int))) = false := by
         simp <;> omega
-      simp only [hc', Bool.false_eq_true, if_false]
+      simp only [hc', Bool.false_eq_true, if_false, rret_last]
       congr 1
       generalize i % n = r at hr
       have hla : (buf.drop r).length = n - r := by simp [hb]
@@ -56,16 +56,6 @@ theorem st_lastFinish (buf : List (Option α)) (i n : Nat) (hb : buf.length = n)
     · have hn0 : n = 0 := by omega
       subst hn0
       simp [stLastRotGuard]
-
-theorem lastLoop_succ (m : SM σ α) (n : Int) (c : Bool) (fuel : Nat) (buf : List (Option α)) (i : Int) (s : σ) :
-    lastLoop m n c (fuel + 1) buf i s = match m.step s c with
-      | (.item a, s') =>
-        (match lastStore buf i n a with
-        | none => (.panic, s')
-        | some buf' => lastLoop m n c fuel buf' (if stLastCounts then i + 1 else i) s')
-      | (.skip, s') => lastLoop m n c fuel buf i s'
-      | (.end_, s') => (.ok (buf, i), s')
-      | (.err e, s') => (.error e, s') := rfl
 
 theorem lastLoop_sden {m : SM σ α} {cost : σ → Nat} {s : σ} {L : List (α × Nat)} {t : Term} (n : Nat)
     (h : SDen strict m cost s L t) :
